@@ -1444,6 +1444,13 @@ class FortranFile:
                     name, dims = self.parse_imp_dim(name)
                     name, char_len = self.parse_imp_char(name)
                     if dims:
+                        # The shape given with the name replaces the one of
+                        # the statement's DIMENSION attribute
+                        var_keywords = [
+                            keyword
+                            for keyword in var_keywords
+                            if not keyword.upper().startswith("DIMENSION")
+                        ]
                         var_keywords.append(dims)
                     if char_len:
                         desc += char_len
@@ -1470,7 +1477,9 @@ class FortranFile:
                             desc,
                             keywords,
                             keyword_info=keyword_info,
-                            kind=obj_info.var_kind,
+                            # A length given with the name (c*7) replaces the
+                            # statement's length selector
+                            kind=None if char_len else obj_info.var_kind,
                             link_obj=link_name,
                         )
                         # If the object is fortran_var and a parameter include
